@@ -16,6 +16,7 @@ import (
 	"time"
 
 	"lunar/engine/streams"
+	"lunar/engine/streams/validation"
 	contextmanager "lunar/toolkit-core/context-manager"
 	"verifharness/eng"
 	"verifharness/mc"
@@ -33,9 +34,16 @@ type cfg struct {
 	TwoQuotas bool
 	// RateFirst: (with TwoQuotas) the fixed-window Limiter comes first, the concurrent one second
 	RateFirst bool
+	// AfterRejectedDryRun: before the engine is built, the same process validated (and
+	// refused) a configuration whose quota file is broken and then validated the good one -
+	// what a refused configuration update followed by its roll-back does
+	AfterRejectedDryRun bool
 }
 
 func (c cfg) name() string {
+	if c.AfterRejectedDryRun {
+		return fmt.Sprintf("max=%d after a rejected dry run", c.Max)
+	}
 	if c.TwoQuotas && c.RateFirst {
 		return fmt.Sprintf("rate-quota+max=%d", c.Max)
 	}
@@ -255,6 +263,21 @@ type model struct {
 func newModel(c cfg) *model {
 	ctx, cancel := context.WithCancel(context.Background())
 	contextmanager.Get().WithContext(ctx)
+	if c.AfterRejectedDryRun {
+		good := eng.Files{Flows: map[string]string{"f.yaml": flowFor(c)}, Quotas: map[string]string{"q.yaml": quotaYAML(c)}}
+		bad := eng.Files{Flows: good.Flows, Quotas: map[string]string{"q.yaml": "quotas:\n  - id: Q\n    filter:\n      url: h.com/*\n    strategy:\n      concurrent:\n        max_request_count: [not a number\n"}}
+		for i, f := range []eng.Files{bad, good} {
+			root, err := eng.Dir(f, "")
+			if err != nil {
+				panic(err)
+			}
+			eng.Point(root, "")
+			verr := validation.NewValidator().Validate()
+			if (verr == nil) != (i == 1) {
+				panic(fmt.Sprintf("dry run %d: unexpected verdict %v", i, verr))
+			}
+		}
+	}
 	s, root, err := eng.NewStream(eng.Files{Flows: map[string]string{"f.yaml": flowFor(c)}, Quotas: map[string]string{"q.yaml": quotaYAML(c)}})
 	if err != nil {
 		panic("engine did not load: " + err.Error())
@@ -386,7 +409,7 @@ var _ = os.Getenv
 func TestCheck(t *testing.T) {
 	r := mc.New("C02", "model_checking")
 	depth := mc.Pick(r, 6, 7)
-	cs := []cfg{{Max: 1}, {Max: 2}, {Max: 1, TwoQuotas: true}, {Max: 1, TwoQuotas: true, RateFirst: true}}
+	cs := []cfg{{Max: 1}, {Max: 2}, {Max: 1, TwoQuotas: true}, {Max: 1, TwoQuotas: true, RateFirst: true}, {Max: 1, AfterRejectedDryRun: true}}
 	if f := mc.ReplayFile(); f != "" {
 		var rp mc.BFSReplay
 		if err := mc.LoadReplay(f, &rp); err != nil || rp.Model == "" {
@@ -481,7 +504,7 @@ func schedules(t *testing.T, r *mc.Run) {
 		Body: func(x *mc.Exec) {
 			m := newModel(cfg{Max: 1})
 			x.Vals["m"] = m
-			eng.OnRequest(m.s, eng.Req{ID: "H", URL: "h.com/a"})  // holder, admitted sequentially
+			eng.OnRequest(m.s, eng.Req{ID: "H", URL: "h.com/a"}) // holder, admitted sequentially
 			x.Go("resp", func() { eng.OnResponse(m.s, eng.Resp{ID: "H", URL: "h.com/a", Status: 200}); x.Logf("resp done") })
 			x.Go("err", func() { m.s.OnError("H"); x.Logf("err done") })
 		},
